@@ -47,7 +47,8 @@ class C20(BaseCheck):
   REQUIRED_ANCHORS = ANCHORS
   REQUIRED_CLASSES = ('name:plain', 'name:x_', 'name:x__', 'name:_x', 'name:__x__', 'uri:tcp', 'uri:zk',
                       'uri:bad', 'result:error', 'result:later', 'inherited', 'function-name-differs', 'alias')
-  ASSUMPTIONS = ('public method = name not starting with an underscore; names that collide with '
+  ASSUMPTIONS = ('public method = every user method that is not a dunder name (the property quantifies over names '
+                 'with leading and trailing underscores, so _x and _x_ are judged like any other); names that collide with '
                  'another method\'s _async form or with the proxy base class are not generated',)
   QUICK_CASES = 1200
   THOROUGH_CASES = 100000
@@ -114,7 +115,7 @@ class C20(BaseCheck):
     disp = StubDispatcher()
     proxy = proxy_cls(disp)
 
-    public = sorted(n for n in usable if not n.startswith('_'))
+    public = sorted(n for n in usable if not n.startswith('__'))
     shapes_used = set()
     for name in sorted(usable):
       shape, sig, level = usable[name]
@@ -122,8 +123,8 @@ class C20(BaseCheck):
       shapes_used.add(shape)
       if level < depth - 1:
         classes.add('inherited')
-      if name.startswith('_'):
-        continue   # not public: whatever the generator does with it is not judged
+      if name.startswith('__'):
+        continue   # dunder names are not interface methods: whatever the generator does with them is not judged
       for form in ('sync', 'async'):
         attr = name + ('_async' if form == 'async' else '')
         out.obligations += 1
